@@ -43,7 +43,8 @@ def plan(tier, seed):
 def run_shard(spec, acc):
     prof = gen.profile(p_green=0.7, p_forward=0.6,
                        w={'status': 10, 'stale_status': 4, 'commit_event': 8,
-                          'admin': 0.6, 'push_to_destination': 0.8})
+                          'admin': 0.6, 'push_to_destination': 0.8,
+                          'push_tag': 0.5})
     openers = [None, gen.OPENERS['two_prs_same_base'],
                gen.OPENERS['stab_between_devs'], gen.OPENERS['three_queued'],
                gen.OPENERS['three_queued'],
@@ -58,8 +59,16 @@ def run_shard(spec, acc):
         n_hist, jobs, cap = 9, 12, 600
     else:
         n_hist, jobs, cap = 110, 22, 4800
+    # hotfix destinations: their queues are on no merge path of a queue
+    # evaluation; a release in the middle opens a second queue
+    directed = [({'layout': layout, 'queue_mode': 'queue',
+                  'cmd_line_options': []}, gen.OPENERS[op])
+                for layout in ('h1d2', 'h1s1d2')
+                for op in ('hotfix_two_queues', 'dest_pushed_while_queued',
+                           'dest_pushed_while_queued',
+                           'dest_pushed_while_queued')]
     runner.run_histories(spec, acc, configs(), prof, MONITORS, n_hist, jobs,
-                         openers=openers, soft_cap_s=cap)
+                         openers=openers, soft_cap_s=cap, directed=directed)
 
 
 def finalize(acc, tier, seed):
